@@ -28,7 +28,8 @@ def kfd_request(m, ids, cmd="kfd", extra=()):
 
 def make_kfd(rng, node_mode=False):
     import flowpaths as fp
-    G, paths, ws, is_int = gen2.rand_flow_dag(rng, nmax=rng.choice([4, 5, 6]))
+    G, paths, ws, is_int = gen2.rand_flow_dag(rng, nmax=rng.choice([4, 5, 6]), zero_edges=rng.random() < 0.4)
+    G.graph["id"] = "graph 1"                 # many files start every block at the same id
     ign = gen2.rand_ignore(rng, G) if rng.random() < 0.4 else []
     cons = gen2.rand_constraints(rng, paths) if rng.random() < 0.5 else []
     kw = {}
@@ -83,6 +84,9 @@ def check_solution(ctx, cls, args, m, sol, routes_key="paths"):
             ctx.report(f"weight {w!r} has type {type(w).__name__}, requested int", rep); return False
         if wt == float and not isinstance(w, (float, int)):
             ctx.report(f"weight {w!r} has type {type(w).__name__}, requested float", rep); return False
+    nonempty = [r for r in routes if len(r) > 0]
+    if len(nonempty) > args.get("k", len(nonempty)) and cls == "kFlowDecomp":
+        ctx.report(f"kFlowDecomp(k={args['k']}) returned {len(nonempty)} non-empty paths", rep); return False
     why = props.explains_flow(G, args["flow_attr"], routes, weights, ignore=args.get("elements_to_ignore", []), exact=(wt == int))
     if why:
         ctx.report("returned decomposition does not explain the flow: " + why, rep); return False
@@ -112,7 +116,7 @@ def run(ctx):
             if given is None:
                 req = kfd_request(m, ids, "kfd")
             else:
-                req = kfd_request(m, ids, "kfdw", extra=[len(given), [common.qtok(w) for w in given], m.original_k])
+                req = kfd_request(m, ids, "kfdw", extra=[len(given), [common.qtok(w) for w in given], args["k"]])
             d = e1.compare(ctx, "E1_kFlowDecomp_LP", "kfd", m, impl, req, args)
             nontriv = m.k >= 2 and len(impl["rows"]) > 6
             ctx.dist("route:MILP" if given is None else "route:given-weights")
@@ -147,6 +151,31 @@ def run(ctx):
             ctx.count("search_after_broken_E1", "cases")
             if m.is_solved() and not check_solution(ctx, "kFlowDecomp", args, m, m.get_solution()):
                 break
+    # large magnitudes: conservation must be tested exactly; a flow that misses conservation by one unit
+    # must be rejected (ValueError) or, if a model is built and solved, still be explained exactly
+    for i in range(ctx.budget(40, 800)):
+        rng = ctx.rng("big", i)
+        G, paths, ws, is_int = gen2.rand_flow_dag(rng, nmax=5, intw=True)
+        scale = 10 ** rng.choice([9, 10, 12])
+        for e in G.edges():
+            G.edges[e]["flow"] *= scale
+        inner = [v for v in G if G.in_degree(v) > 0 and G.out_degree(v) > 0]
+        broken = bool(inner) and rng.random() < 0.6
+        if broken:
+            v = rng.choice(inner); e = rng.choice(list(G.in_edges(v)))
+            G.edges[e]["flow"] += rng.choice([1, 2, 3])
+        args = dict(G=G, flow_attr="flow", k=len(set(map(tuple, paths))) + 1, weight_type=int, solver_options={"threads": THREADS})
+        ctx.case(["big", describe(args)], nontrivial=True); ctx.count("E2_large_magnitudes", "cases")
+        try:
+            m = fp.kFlowDecomp(**args); m.solve()
+        except ValueError:
+            if not broken:
+                ctx.report("kFlowDecomp rejected a conserving flow with large values", {"class": "kFlowDecomp", "args": describe(args)})
+            continue
+        except Exception as e:
+            ctx.report("kFlowDecomp raised " + repr(e), {"class": "kFlowDecomp", "args": describe(args)}); continue
+        if m.is_solved():
+            check_solution(ctx, "kFlowDecomp", args, m, m.get_solution())
     # MinFlowDecomp: every route (greedy / MILP / lower bounds / node origin)
     n2 = ctx.budget(60, 1500)
     for i in range(n2):
